@@ -95,6 +95,7 @@ pub fn explore(cfg: &ExecCfg, out: &mut TraceWriter, reset: Value, mut make: imp
             max_steps: cfg.max_steps,
             record_atoms: cfg.atoms,
             yield_after: cfg.yield_after,
+            site_filter: None,
         };
         let res = sched::run(rc, case.bodies, strat);
         if res.outcome != Outcome::Completed || !res.panics.is_empty() {
